@@ -68,7 +68,7 @@ TRACE = bool(os.environ.get("PYVC_TRACE"))
 Z3_TIMEOUT_MS = int(os.environ.get("PYVC_Z3_TIMEOUT_MS", "20000"))      # last-resort budget
 Z3_QUICK_MS = int(os.environ.get("PYVC_Z3_QUICK_MS", "1500"))           # first attempt, before cvc5 is asked
 CVC5_TIMEOUT_S = int(os.environ.get("PYVC_CVC5_TIMEOUT_S", "30"))
-UNIT_BUDGET_S = int(os.environ.get("PYVC_UNIT_BUDGET_S", "900"))         # wall-clock budget of one unit (all its paths)
+UNIT_BUDGET_S = int(os.environ.get("PYVC_UNIT_BUDGET_S", "300"))         # wall-clock budget of one unit (all its paths)
 CVC5 = "/usr/bin/cvc5"
 
 STATS = {"z3_queries": 0, "z3_time": 0.0, "cvc5_queries": 0, "cvc5_time": 0.0, "unknown": 0}
